@@ -150,3 +150,60 @@ pub fn next_up(x: f64) -> f64 {
 pub fn next_down(x: f64) -> f64 {
     -next_up(-x)
 }
+
+// ---------------------------------------------------------------------------------------------
+// epoch lattices
+use crate::oracle::leap::{DIGEST, NS, SOFA_TS};
+use crate::oracle::scales;
+use hifitime::TimeScale;
+
+pub const J2000_TAI: i128 = 3_155_716_800 * NS;
+
+/// shift that maps a TAI count to (approximately, for UTC/ET/TDB) the count in scale `ts`
+fn shift(ts: TimeScale) -> i128 {
+    match ts {
+        TimeScale::UTC => 0,
+        TimeScale::ET | TimeScale::TDB => J2000_TAI,
+        _ => scales::zero_tai(ts).unwrap(),
+    }
+}
+
+/// Epoch lattice EL(scale): counts in the scale itself.
+/// `leap_window`: (from, to) seconds around every IERS/SOFA entry, every whole second x 4 sub-second offsets.
+pub fn el(ts: TimeScale, w: i128, leap_window: Option<(i64, i64)>) -> Vec<i128> {
+    let mut v: Vec<i128> = dl(w, false).into_iter().filter(|x| x.abs() <= 105 * NPC).collect();
+    let sh = shift(ts);
+    let mut anchors: Vec<i128> = vec![0, J2000_TAI, -32_184_000_000, J2000_TAI - 32_184_000_000];
+    for s in [TimeScale::GPST, TimeScale::GST, TimeScale::BDT] {
+        anchors.push(scales::zero_tai(s).unwrap());
+    }
+    // first and last instants of the four-digit years, 1972-01-01 - 1 day, UNIX zero
+    anchors.push(crate::oracle::civil::days1900(1, 1, 1) as i128 * scales::DAY);
+    anchors.push(crate::oracle::civil::days1900(10_000, 1, 1) as i128 * scales::DAY);
+    anchors.push(crate::oracle::civil::days1900(1970, 1, 1) as i128 * scales::DAY);
+    anchors.push(crate::oracle::civil::days1900(1971, 12, 31) as i128 * scales::DAY);
+    for a in anchors {
+        for o in [0i128, 1, 2, NS, NS / 2, scales::DAY, 19 * NS, 33 * NS, 37 * NS] {
+            v.push(a - sh + o);
+            v.push(a - sh - o);
+        }
+    }
+    if let Some((from, to)) = leap_window {
+        let all: Vec<i64> = DIGEST.iter().map(|e| e.0).chain(SOFA_TS.iter().copied()).collect();
+        for t in all {
+            for k in from..=to {
+                for sub in [0i128, 1, NS / 2, NS - 1] {
+                    v.push((t + k) as i128 * NS + sub - sh);
+                }
+            }
+        }
+    } else {
+        for (t, d) in DIGEST {
+            for o in [-NS, -1, 0, 1, NS] {
+                v.push(t as i128 * NS + o - sh);
+                v.push((t + d) as i128 * NS + o - sh);
+            }
+        }
+    }
+    finish(v, -106 * NPC, 106 * NPC)
+}
